@@ -171,7 +171,8 @@ with fn2 :=
 | A2MeanAcc (km : fn)                       (* rs.math.mean accumulate *)
 | A2VarAcc (km : fn)                        (* rs.math.variance accumulate (Welford) *)
 | A2Batch (n : Z)                           (* rs.data.batch _batch (repaired) *)
-| A2Duc (km : fn).                          (* distinct_until_changed _distinct (repaired seed) *)
+| A2Duc (km : fn)                           (* distinct_until_changed _distinct (repaired seed) *)
+| A2ArrAppend (dbl : bool).                 (* rs.data.to_array _append on array('d') / array('q'): append coerces the item *)
 
 Definition tup2 (a b : val) := VTuple [a; b].
 Definition tup3 (a b c : val) := VTuple [a; b; c].
@@ -235,6 +236,20 @@ with apply2 (a : fn2) (acc x : val) {struct a} : res :=
   | A2Min => py_min2 acc x
   | A2Count => py_add acc (VInt 1)
   | A2Append => match acc with VList l => Ok (VList (l ++ [x])) | _ => Raise TypeError end
+  | A2ArrAppend dbl =>
+      match acc with
+      | VList l =>
+          match dbl, x with
+          | true, VInt z => Ok (VList (l ++ [VFloat (z2f z)]))
+          | true, VBool b => Ok (VList (l ++ [VFloat (z2f (if b then 1 else 0))]))
+          | true, VFloat f => Ok (VList (l ++ [VFloat f]))
+          | false, VInt z => if ((- 9223372036854775808 <=? z) && (z <? 9223372036854775808))%Z
+                             then Ok (VList (l ++ [VInt z])) else Raise OverflowError
+          | false, VBool b => Ok (VList (l ++ [VInt (if b then 1 else 0)]))
+          | _, _ => Raise TypeError
+          end
+      | _ => Raise TypeError
+      end
   | A2Snd => Ok x
   | A2Fst => Ok acc
   | A2Lt => lt_res acc x
